@@ -69,7 +69,7 @@ def main():
         meta['demo_with_patch_tail'] = out1[-400:]
         junit = os.path.join(work, 'junit.xml')
         rct, outt = sh(f'{PY} -m pytest -q -p no:cacheprovider --timeout=900 -n 12 '
-                       f'--continue-on-collection-errors --junitxml={junit} tests',
+                       f'--continue-on-collection-errors --junitxml={junit}',
                        cwd=repo, env=env, timeout=3000)
         base = set(json.load(open('/root/.vp/BASELINE.json'))['stable_pass'])
         passed = set()
